@@ -379,14 +379,26 @@ func runE2E(log *tr.Log, sc *e2eScen, rng *rand.Rand, tmpdir string, big bool) e
 	if err != nil {
 		return fmt.Errorf("connect %s: %v", cliAddr, err)
 	}
+	// at most one value of a scenario is the empty object (it carries no token member of its own)
+	emptyTok := -1
+	if rng.Intn(2) == 0 {
+		ci := 1 + rng.Intn(len(sc.Calls))
+		emptyTok = 100*ci + rng.Intn(sc.Calls[ci-1].More+2) // the call's parameter (j = 0) or one of its replies
+	}
+	gen := func(tok int) []byte {
+		if tok == emptyTok {
+			return [][]byte{[]byte("{}"), []byte("{ }"), []byte("{\n}")}[rng.Intn(3)]
+		}
+		return genValue(rng, tok, big)
+	}
 	for idx, c := range sc.Calls {
 		i := idx + 1
-		pv := genValue(rng, 100*i, big)
+		pv := gen(100 * i)
 		toks.add(100*i, pv)
 		total := c.More + 1
 		iface.mu.Lock()
 		for j := 1; j <= total; j++ {
-			rv := genValue(rng, 100*i+j, big)
+			rv := gen(100*i + j)
 			iface.vals[100*i+j] = rv
 			toks.add(100*i+j, rv)
 		}
